@@ -68,9 +68,32 @@ async function run_jspolicy(c, repo, d) {
     return {error: err, out_size: fs.existsSync(outp) ? fs.statSync(outp).size : null};
 }
 
+function csv_line(row) { return row.map(v => /[,"]/.test(v) ? '"' + v.replace(/"/g, '""') + '"' : v).join(','); }
+function csv_parse_line(line) {
+    const out = []; let i = 0;
+    while (i <= line.length) {
+        if (line[i] === '"') {
+            let v = ''; i += 1;
+            while (i < line.length && !(line[i] === '"' && line[i + 1] !== '"')) { if (line[i] === '"') i += 1; v += line[i]; i += 1; }
+            out.push(v); i += 2;
+        } else { let j = line.indexOf(',', i); if (j === -1) j = line.length; out.push(line.slice(i, j)); i = j + 1; }
+    }
+    return out;
+}
+
+async function run_distinct_csv(c, repo, d) {
+    const rbql_csv = require(path.join(repo, 'rbql-js', 'rbql_csv.js'));
+    const inp = path.join(d, 'in.csv'), outp = path.join(d, 'out.csv');
+    fs.writeFileSync(inp, c.rows.map(r => csv_line(r) + '\n').join(''), 'utf-8');
+    try { await rbql_csv.query_csv(c.qjs, inp, ',', 'quoted', outp, ',', 'quoted', 'utf-8', []); } catch (e) { return {error: cls(e), rows: null}; }
+    const lines = fs.readFileSync(outp, 'utf-8').split('\n'); lines.pop();
+    return {error: null, rows: lines.map(csv_parse_line)};
+}
+
 module.exports.run_case = async function (c, repo) {
     const d = fs.mkdtempSync(path.join(process.env.VERIF_SCRATCH || os.tmpdir(), 'covmiscjs_'));
     try {
+        if (c.kind === 'distinct_csv') return await run_distinct_csv(c, repo, d);
         if (c.kind === 'head') return await run_head(c, repo, d);
         if (c.kind === 'jswriter') return await run_jswriter(c, repo, d);
         if (c.kind === 'jswriter_query') return await run_jswriter_query(c, repo, d);
